@@ -46,7 +46,7 @@ type intent struct {
 	Early    bool   `json:"early,omitempty"`    // boot: may happen before snapd marked the running boot successful
 }
 
-func iTry(t, rev int) intent     { return intent{K: "try", T: t, Rev: rev, Fail: -1, Alt: true} }
+func iTry(t, rev int) intent      { return intent{K: "try", T: t, Rev: rev, Fail: -1, Alt: true} }
 func iUndo(t int) intent          { return intent{K: "undo", T: t, Fail: -1} }
 func iBoot(g bool, f int) intent  { return intent{K: "boot", Graceful: g, Fail: f} }
 func iEarly(g bool, f int) intent { return intent{K: "boot", Graceful: g, Fail: f, Early: true} }
@@ -194,7 +194,7 @@ type checkpoint struct {
 
 type stats struct {
 	boots, attempts, cuts, cutsDup, fallbacks, tryBoots, promotions, initramfsReboots, fwFallbacks int
-	ops, writes, opErrors, branches, mismatches                                                   int
+	ops, writes, opErrors, branches, mismatches                                                    int
 }
 
 type explorer struct {
